@@ -38,6 +38,21 @@ if sid % 8 == 5:
         return {'t2': 0.5 * np.asarray(inputs['t1'], dtype=float) + 3.0}
     system.insert_components([Component(tail1, [system.outputs()['z']], [t1], name='tail1', vectorized=True, data_fidelity=(1,)),
                               Component(tail2, [t1], [t2], name='tail2', vectorized=True, data_fidelity=(1,))])
+anonymous = sid % 8 == 7
+if anonymous:
+    # exogenous inputs WITHOUT names: the library gives them generated names that differ from process to process; nothing seeded may follow them
+    from amisc import Component, System, Variable
+    va, vb, vc = Variable(distribution='U(0, 1)'), Variable(distribution='U(-1, 1)'), Variable(distribution='U(0, 2)')
+    y1 = Variable('y1', domain=(-5.0, 5.0)); y2 = Variable('y2', domain=(-20.0, 20.0))
+    c_ = [rng.randint(1, 3) for _ in range(4)]
+
+    def f1(a, b, _c=c_):
+        return {'y1': _c[0] * np.asarray(a, dtype=float) ** 2 + _c[1] * np.asarray(b, dtype=float)}
+
+    def f2(y, c, _c=c_):
+        return {'y2': _c[2] * np.asarray(y, dtype=float) + _c[3] * np.asarray(c, dtype=float) ** 2}
+    system = System(Component(f1, [va, vb], [y1], name='a1', vectorized=True, data_fidelity=(2, 1), call_unpacked=True, ret_unpacked=False),
+                    Component(f2, [y1, vc], [y2], name='a2', vectorized=True, data_fidelity=(1, 2), call_unpacked=True, ret_unpacked=False), name=f'h{sid}')
 if sid % 8 == 0 and len(system.components) >= 3:
     # the same system assembled in two calls: the components inserted later keep the order in which they were given
     from amisc import System
@@ -71,4 +86,12 @@ out = {
     'state_digest': systems.digest(systems.system_state(system)),
     'prediction': {k: [repr(float(t)) for t in np.ravel(v)] for k, v in sorted(pred.items())},
 }
+if anonymous:       # generated names are replaced by their position in the listing; the state digest (which holds names) is left out
+    pos = {str(v): f'in{i}' for i, v in enumerate(system.inputs())}
+    ren = lambda n_: pos.get(str(n_), str(n_))
+    out['components'] = [[[ren(v) for v in ins], outs] for ins, outs in out['components']]
+    out['inputs_order'] = [ren(v) for v in out['inputs_order']]
+    out['sample_keys'] = [ren(v) for v in out['sample_keys']]
+    out['samples'] = {ren(k): v for k, v in out['samples'].items()}
+    out['state_digest'] = 'not compared: holds generated names'
 print('C20JSON ' + json.dumps(out, default=str))
